@@ -90,9 +90,14 @@ LiveResByRank(st, k) ==
     LET hs == SelectSeq([i \in DOMAIN st.res |-> i], LAMBDA i : st.res[i].alive)
     IN IF k \in DOMAIN hs THEN hs[k] ELSE 0
 
-\* the edit is inside the specified domain when it applies, every known selection still fits in the new text and -
-\* for edits that change the length - no annotation addresses that resource with an end-aligned cursor (those are
-\* re-resolved against the new length when the store is loaded, which moves them by design)
+\* When the store is loaded against the edited text, end-aligned cursors are resolved against the NEW length: a text
+\* leaf with mode 1 (begin..end-aligned) keeps its begin and moves its end by the change in length d, mode 2 moves both,
+\* mode 3 moves its begin.  MovedRange is the range such a leaf selects after the reload.
+MovedRange(rg, m, d) == CASE m = 1 -> <<rg[1], rg[2] + d>> [] m = 2 -> <<rg[1] + d, rg[2] + d>> [] m = 3 -> <<rg[1] + d, rg[2]>> [] OTHER -> rg
+
+\* the edit is inside the specified domain when it applies, every selection still fits in the new text (so that loading
+\* succeeds) and - for edits that change the length - the resource has no annotation-relative selections whose parent
+\* is addressed with an end-aligned cursor (those move twice over; not specified here)
 EditInDomain(st, e) ==
     ~e.has \/
     LET r == LiveResByRank(st, e.res)
@@ -100,14 +105,36 @@ EditInDomain(st, e) ==
        /\ (e.kind \in {"sub", "del"} => e.pos < Len(st.res[r].text))
        /\ (e.kind = "ins" => e.pos <= Len(st.res[r].text))
        /\ LET n == Len(EditedText(st.res[r].text, e))
-          IN \A i \in DOMAIN st.res[r].tsel : st.res[r].tsel[i][2] <= n
-       /\ (e.kind # "sub" =>
-             \A x \in LiveAnns(st) : \A i \in DOMAIN st.anns[x].leaves :
-                 LET lf == st.anns[x].leaves[i] IN (IsTextLeaf(lf) /\ LeafRes(lf) = r) => lf.m = 0)
+              d == n - Len(st.res[r].text)
+          IN /\ \A i \in DOMAIN st.res[r].tsel : st.res[r].tsel[i][2] <= n
+             /\ \A x \in LiveAnns(st) : \A i \in DOMAIN st.anns[x].leaves :
+                   LET lf == st.anns[x].leaves[i]
+                   IN (IsTextLeaf(lf) /\ LeafRes(lf) = r /\ lf.m # 0 /\ d # 0) =>
+                        /\ lf.k = "Text"
+                        /\ LET mr == MovedRange(LeafRange(st, lf), lf.m, d) IN 0 <= mr[1] /\ mr[1] <= mr[2] /\ mr[2] <= n
+                        \* (nothing may be addressed relative to an annotation that moves)
+                        /\ \A y \in LiveAnns(st) : \A j \in DOMAIN st.anns[y].leaves : ~(st.anns[y].leaves[j].k = "AnnText" /\ st.anns[y].leaves[j].a = x)
 
+\* the state the reloaded store must be view-equal to: the text edited, and every end-aligned text leaf of that resource
+\* pointing at (a new entry for) the range it resolves to against the new length
+RECURSIVE MoveLeaves(_, _, _, _)
+MoveLeaves(st, r, d, todo) ==
+    IF todo = <<>> THEN st
+    ELSE LET x == Head(todo)[1]
+             i == Head(todo)[2]
+             lf == st.anns[x].leaves[i]
+             mr == MovedRange(LeafRange(st, lf), lf.m, d)
+             st1 == [st EXCEPT !.res[r].tsel = Append(@, mr), !.anns[x].leaves[i].b = Len(st.res[r].tsel) + 1]
+         IN MoveLeaves(st1, r, d, Tail(todo))
 ApplyEdit(st, e) ==
     IF ~e.has THEN st
-    ELSE LET r == LiveResByRank(st, e.res) IN [st EXCEPT !.res[r].text = EditedText(@, e)]
+    ELSE LET r == LiveResByRank(st, e.res)
+             d == Len(EditedText(st.res[r].text, e)) - Len(st.res[r].text)
+             st0 == [st EXCEPT !.res[r].text = EditedText(@, e)]
+             codes == SortedInts({p[1] * 100 + p[2] : p \in {q \in UNION {{<<x, i>> : i \in DOMAIN st.anns[x].leaves} : x \in LiveAnns(st)} :
+                                  LET lf == st.anns[q[1]].leaves[q[2]] IN lf.k = "Text" /\ lf.a = r /\ lf.m # 0}})
+             moved == [k \in DOMAIN codes |-> <<codes[k] \div 100, codes[k] % 100>>]
+         IN IF d = 0 THEN st0 ELSE MoveLeaves(st0, r, d, moved)
 
 ----------------------------------------------------------------------------
 (* dispatcher over all mutating events (store + validation)                *)
